@@ -25,7 +25,7 @@ RULE = ('Hypothesis: sources over letters, < > & " \' tab, blank, line break, ba
         'message; each numbered row == that source line; numbers 1..n for negative context; every match exactly once (in place or in the overlap list) with highlighted text == source span it maps to. '
         'non-trivial = at least two matches in one region, or HTML-special characters inside a highlighted span or a message; distinct by (source, matches, context)')
 ASSUMPTIONS = [
-    'messages, suggestions and contexts contain no line breaks (LanguageTool contexts are single lines; the statement lists the four characters < > & ")',
+    'messages, suggestions and contexts may contain line breaks (they stay line breaks inside the title text)',
     'matches lie inside the submitted text (offset + length <= len(text)); matches touching the padded map entries cannot come from a proofreader',
     'option --link is off: URLs are not in the list of the statement',
 ]
@@ -35,7 +35,7 @@ LEVEL_NOTE = 'Trusted: html.parser and the 80-line report model. Sampling only.'
 TECHNIQUE = 'Hypothesis generated sources/match sets, HTML re-parsing oracle (round trip to source lines), in-process plus subprocess sample'
 
 ALLOWED_TAGS = {'a', 'h3', 'table', 'tr', 'td', 'span', 'br'}
-HOSTILE = ['<', '>', '&', '"', '"><script>alert(1)</script>', '</span>', '<br>', '&amp;', '&lt;', "'", ' ', 'x', 'Fehler', 'é']
+HOSTILE = ['a\nb', '<', '>', '&', '"', '"><script>alert(1)</script>', '</span>', '<br>', '&amp;', '&lt;', "'", ' ', 'x', 'Fehler', 'é']
 SRC = ['a', 'b', 'Wort', ' ', ' ', '\n', '\n', '\t', '<', '>', '&', '"', "'", '\\', '{', '}', '%', '&amp;', '<b>', '</td>', '\\textbf', 'é',
        'x' * 40, '\n\n', '<br>', '  ', '\x0c', '\u2028', '\x0b', '\x85', '\x1c', '\\%', '\\&', '\\subsubsection']
 src_s = st.lists(st.sampled_from(SRC), min_size=1, max_size=30).map(''.join)
